@@ -21,6 +21,8 @@ def run(ctx):
     res.assumptions = ["observation at the client sockets with the barrier protocol (DESIGN 2.3)",
                        "snapshot hook reads the state under the server's own lock",
                        "reference model of DESIGN 2.4 encodes the statement; unspecified choices are resynchronised, not judged"]
+    # two operators demote each other / many members set one attribute at the same moment: one serial order, announced = stored
+    common.run_storm_kinds(ctx, res, "c08:", ["mutual", "settings"], 20, 150, jobs=3)
     return res
 
 
